@@ -64,6 +64,9 @@ type linLine struct {
 	Config   string   `json:"config,omitempty"`
 	Sched    []string `json:"sched,omitempty"`
 	Mode     string   `json:"mode,omitempty"` // "acct": judged by LinKey's account reading (C17)
+	// Predicted is the class the implementation-shaped model (code as it is) predicts for
+	// this schedule ("" when there is no prediction)
+	Predicted string `json:"predicted,omitempty"`
 }
 
 type pkConfig struct {
@@ -95,6 +98,10 @@ var codeAsIs = pkSwitches{PublishAtomic: true, AttrsBeforePublish: true}
 var codeRepaired = pkSwitches{true, true, true}
 
 func pkCfgText(scn string, k pkConfig, initPresent bool, sw pkSwitches, emit, invariants, crash bool) string {
+	return pkCfgTextF(scn, k, initPresent, sw, emit, invariants, crash, false)
+}
+
+func pkCfgTextF(scn string, k pkConfig, initPresent bool, sw pkSwitches, emit, invariants, crash, fine bool) string {
 	b := func(v bool) string {
 		if v {
 			return "TRUE"
@@ -106,6 +113,7 @@ func pkCfgText(scn string, k pkConfig, initPresent bool, sw pkSwitches, emit, in
 	fmt.Fprintf(&sb, " Scenario = %q\n Strategy = %q\n Meta = %q\n InitPresent = %s\n", scn, k.Strategy, k.Meta, b(initPresent))
 	fmt.Fprintf(&sb, " PublishAtomic = %s\n ReadThroughFd = %s\n AttrsBeforePublish = %s\n Emit = %s\n WithCrash = %s\n",
 		b(sw.PublishAtomic), b(sw.ReadThroughFd), b(sw.AttrsBeforePublish), b(emit), b(crash))
+	fmt.Fprintf(&sb, " FineSteps = %s\n", b(fine))
 	if invariants {
 		sb.WriteString("INVARIANTS PNoTornRead PNoSpuriousMissing PLinearizable\nVIEW View\n")
 	}
@@ -120,7 +128,21 @@ var pkSizes = map[string]int{"w0": 9000, "w1": 13100, "w2": 17300, "w3": 21000, 
 
 func pkContent(w string) []byte { return Content("c05-"+w, pkSizes[w]) }
 
+// same-length contents (a cache keyed by size cannot tell them apart)
+func pkContentSame(w string) []byte { return Content("c05s-"+w, 12000) }
+
+func (w *pkWorld) content(wid string) []byte {
+	if w.sameSize {
+		return pkContentSame(wid)
+	}
+	return pkContent(wid)
+}
+
 type pkWorld struct {
+	symmetric bool // restart all gateways before every behaviour and give them identical histories
+	extra     []*gw.GW
+	fine     bool // PUT also stops at its private steps (put.tmp_open, put.body_done)
+	sameSize bool // every write has the same length (length then identifies no write)
 	c      *core.Ctx
 	k      pkConfig
 	env    *Env
@@ -148,17 +170,15 @@ func newPkWorld(c *core.Ctx, k pkConfig) (*pkWorld, error) {
 	w := &pkWorld{c: c, k: k, env: env, ctl: ctl, bucket: "lin", key: "dir/obj", etagOf: map[string]string{}, sizeOf: map[int]string{}}
 	w.cls = []*s3c.Client{env.Root}
 	if k.TwoProc {
-		_, cl2, err := env.Second(nil)
+		g2, cl2, err := env.Second(nil)
 		if err != nil {
 			w.Close()
 			return nil, err
 		}
 		w.cls = append(w.cls, cl2)
+		w.extra = append(w.extra, g2)
 	}
-	for wid, n := range pkSizes {
-		w.etagOf[s3c.MD5Hex(pkContent(wid))] = wid
-		w.sizeOf[n] = wid
-	}
+	w.index()
 	if r := CreateBucket(env.Root, w.bucket); !r.OK() {
 		w.Close()
 		return nil, fmt.Errorf("create bucket: %v", r)
@@ -166,7 +186,22 @@ func newPkWorld(c *core.Ctx, k pkConfig) (*pkWorld, error) {
 	return w, nil
 }
 
+func (w *pkWorld) index() {
+	w.etagOf, w.sizeOf = map[string]string{}, map[int]string{}
+	for wid, n := range pkSizes {
+		w.etagOf[s3c.MD5Hex(w.content(wid))] = wid
+		if !w.sameSize {
+			w.sizeOf[n] = wid
+		}
+	}
+}
+
 func (w *pkWorld) Close() {
+	for _, g := range w.extra {
+		if g != nil {
+			g.Stop()
+		}
+	}
 	w.env.Close()
 	w.ctl.Close()
 }
@@ -176,13 +211,50 @@ func (w *pkWorld) put(cl *s3c.Client, label, wid string, tag bool) *s3c.Resp {
 	if tag {
 		h = append(h, s3c.KV{K: "X-Amz-Tagging", V: "wid=" + wid})
 	}
-	return cl.Do(s3c.Req{Method: "PUT", Path: "/" + w.bucket + "/" + w.key, Body: pkContent(wid), Headers: h, Label: label, Mode: s3c.UnsignedPayload})
+	return cl.Do(s3c.Req{Method: "PUT", Path: "/" + w.bucket + "/" + w.key, Body: w.content(wid), Headers: h, Label: label, Mode: s3c.UnsignedPayload})
+}
+
+// freshSymmetric restarts every gateway process and lets each serve the same number
+// of uploads (one), so that per-process state (counters, caches) is identical in all
+// of them when the schedule starts: "the first upload after both started".
+func (w *pkWorld) freshSymmetric(initPresent, tag bool) error {
+	if err := w.env.Restart(); err != nil {
+		return err
+	}
+	w.cls[0] = w.env.Root
+	for i := 1; i < len(w.cls); i++ {
+		if w.extra[i-1] != nil {
+			w.extra[i-1].Stop()
+		}
+		g, cl, err := w.env.Second(nil)
+		if err != nil {
+			return err
+		}
+		w.extra[i-1] = g
+		w.cls[i] = cl
+	}
+	if initPresent {
+		if r := w.put(w.cls[0], "", "w0", tag); !r.OK() {
+			return fmt.Errorf("reset put: %v", r)
+		}
+	} else {
+		DeleteObject(w.cls[0], w.bucket, w.key)
+		PutObject(w.cls[0], w.bucket, "warmup-0", []byte("x"))
+	}
+	for i := 1; i < len(w.cls); i++ {
+		PutObject(w.cls[i], w.bucket, fmt.Sprintf("warmup-%d", i), []byte("x"))
+	}
+	return nil
 }
 
 // reset puts the key into its initial state with an ungated request.
 func (w *pkWorld) reset(initPresent, tag bool) error {
+	if w.symmetric {
+		return w.freshSymmetric(initPresent, tag)
+	}
 	if initPresent {
-		if r := w.put(w.cls[0], "", "w0", tag); !r.OK() {
+		// any gateway may serve it (per-process state such as counters then varies between runs)
+		if r := w.put(w.cls[w.c.Rng.Intn(len(w.cls))], "", "w0", tag); !r.OK() {
 			return fmt.Errorf("reset put: %v", r)
 		}
 	} else {
@@ -210,7 +282,7 @@ func (w *pkWorld) observeGet(r *s3c.Resp) linOp {
 		o.Body = "mixed"
 		o.Full = false
 		for wid := range pkSizes {
-			ct := pkContent(wid)
+			ct := w.content(wid)
 			if bytes.Equal(r.Body, ct) {
 				o.Body, o.Full = wid, true
 				break
@@ -226,6 +298,11 @@ func (w *pkWorld) observeGet(r *s3c.Resp) linOp {
 		fmt.Sscanf(r.Header.Get("Content-Length"), "%d", &cl)
 		if wid, ok := w.sizeOf[cl]; ok {
 			o.Len = wid
+		} else if w.sameSize {
+			o.Len = "none" // all writes have this length: it names none of them
+			if cl != len(w.content("w0")) {
+				o.Len = "mixed"
+			}
 		} else {
 			o.Len = "mixed"
 		}
@@ -294,8 +371,11 @@ func (w *pkWorld) stops(op string) []string {
 	switch op {
 	case "put":
 		s := []string{"link.begin", "link.removed", "link.eexist", "put.linked", "put.done"}
-		if w.k.Meta == "sidecar" {
+		if w.k.Meta == "sidecar" || w.fine {
 			s = append(s, "put.body_done")
+		}
+		if w.fine {
+			s = append(s, "put.tmp_open")
 		}
 		return s
 	case "get":
@@ -416,7 +496,7 @@ func pkDrift(b pkBehaviour, obs map[string]linOp) string {
 			continue
 		}
 		if o.Op == "get" && o.Res == "ok" {
-			if m.Body != o.Body || m.Len != o.Len || noneIsMixed(m.Etag) != o.Etag || noneIsMixed(m.Meta) != o.Meta {
+			if m.Body != o.Body || (o.Len != "none" && m.Len != o.Len) || noneIsMixed(m.Etag) != o.Etag || noneIsMixed(m.Meta) != o.Meta {
 				diffs = append(diffs, fmt.Sprintf("%s model=[%s %s %s %s] real=[%s %s %s %s]", p, m.Body, m.Len, m.Etag, m.Meta, o.Body, o.Len, o.Etag, o.Meta))
 			}
 		}
@@ -434,7 +514,7 @@ func pkDrift(b pkBehaviour, obs map[string]linOp) string {
 
 // a missing attribute is "none" in the model and an unrecognisable header for the client
 func noneIsMixed(s string) string {
-	if s == "none" {
+	if s == "none" || s == "missing" {
 		return "mixed"
 	}
 	return s
@@ -504,27 +584,43 @@ func C05(c *core.Ctx, replay string) {
 		initPresent bool
 		exhaustive  bool
 		sample      int
+		symmetric   bool // fresh gateway processes with identical histories before each behaviour
+		fine        bool // also interleave PutObject's private steps
+		same        bool // same-length contents
 	}
 	// quick: every interleaving of PUT||GET (first configuration), samples of the rest;
 	// thorough: every interleaving of every pair, large samples of the triples
 	q := !c.Thorough()
 	plans := []scnPlan{
-		{"put_get", true, true, 0}, {"putT_get", true, !q, 120}, {"put_del", true, !q, 120}, {"del_get", true, !q, 60},
-		{"put_put", true, !q, 120}, {"put_get", false, !q, 60},
-		{"put_put_get", true, false, c.Pick(60, 600)}, {"put_del_get", true, false, c.Pick(60, 600)},
-		{"putT_putT_get", true, false, c.Pick(40, 400)}, {"put_get_get", true, false, c.Pick(30, 300)},
+		{name: "put_get", initPresent: true, exhaustive: true, sample: 0}, {name: "putT_get", initPresent: true, exhaustive: !q, sample: 120}, {name: "put_del", initPresent: true, exhaustive: !q, sample: 120}, {name: "del_get", initPresent: true, exhaustive: !q, sample: 60},
+		{name: "put_put", initPresent: true, exhaustive: !q, sample: 120}, {name: "put_get", initPresent: false, exhaustive: !q, sample: 60},
+		{name: "put_put_get", initPresent: true, exhaustive: false, sample: c.Pick(60, 600)}, {name: "put_del_get", initPresent: true, exhaustive: false, sample: c.Pick(60, 600)},
+		{name: "putT_putT_get", initPresent: true, exhaustive: false, sample: c.Pick(40, 400)}, {name: "put_get_get", initPresent: true, exhaustive: false, sample: c.Pick(30, 300)},
+		// the steps the model treats as private to a request (temp file, body copy) interleaved too
+		{name: "put_put", initPresent: true, sample: c.Pick(80, 500), fine: true},
+		{name: "put_put_get", initPresent: true, sample: c.Pick(40, 400), fine: true},
+		// ... and with freshly started gateway processes that have served identical histories
+		{name: "put_put", initPresent: true, sample: c.Pick(16, 120), fine: true, symmetric: true},
+		// writes of equal length (nothing but the bytes distinguishes them)
+		{name: "put_get_get", initPresent: true, sample: c.Pick(40, 300), same: true},
+		{name: "put_put_get", initPresent: true, sample: c.Pick(40, 300), same: true},
 	}
 	if c.Thorough() {
-		plans = append(plans, scnPlan{"del_del", true, true, 0}, scnPlan{"put_del", false, true, 0}, scnPlan{"put_put_get", false, false, 300})
+		plans = append(plans, scnPlan{name: "del_del", initPresent: true, exhaustive: true}, scnPlan{name: "put_del", exhaustive: true}, scnPlan{name: "put_put_get", sample: 300})
 	}
 	configs := []pkConfig{{"otmp", "xattr", false}}
 	if c.Thorough() {
 		configs = []pkConfig{{"otmp", "xattr", false}, {"named", "xattr", false}, {"otmp", "sidecar", false}, {"named", "sidecar", false},
-			{"otmp", "xattr", true}, {"named", "sidecar", true}}
+			{"otmp", "xattr", true}, {"named", "sidecar", true}, {"named", "xattr", true}}
 	} else {
 		// rotate the second configuration with the seed so repeated quick runs cover all
-		alt := []pkConfig{{"named", "xattr", false}, {"otmp", "sidecar", false}, {"named", "sidecar", false}, {"otmp", "xattr", true}}
+		alt := []pkConfig{{"named", "xattr", true}, {"otmp", "sidecar", false}, {"named", "sidecar", false}, {"otmp", "xattr", true}, {"named", "xattr", false}}
 		configs = append(configs, alt[int(c.Seed)%len(alt)])
+		// always: two fresh gateway processes with the named-temp-file strategy, for the
+		// symmetric fine-step schedules only (cheap)
+		if configs[1] != (pkConfig{"named", "xattr", true}) {
+			configs = append(configs, pkConfig{"named", "xattr", true})
+		}
 	}
 	var replayLine *linLine
 	if replay != "" {
@@ -563,17 +659,27 @@ func C05(c *core.Ctx, replay string) {
 			if replayLine != nil && replayLine.Scenario != pl.name {
 				continue
 			}
+			if ci > 1 && q && !pl.symmetric {
+				continue
+			}
 			if ci > 0 && q {
 				// quick: on the second configuration only sampled PUT||GET, PUT||DELETE and one triple
-				if !(pl.initPresent && (pl.name == "put_get" || pl.name == "put_del" || pl.name == "put_put_get")) {
+				if !(pl.initPresent && (pl.name == "put_get" || pl.name == "put_del" || pl.name == "put_put_get" || pl.fine) || pl.symmetric) {
 					continue
 				}
-				pl.exhaustive, pl.sample = false, 150
+				if !pl.fine && !pl.same {
+					pl.exhaustive, pl.sample = false, 150
+				}
 			}
+			if pl.symmetric && !k.TwoProc {
+				continue
+			}
+			w.fine, w.sameSize, w.symmetric = pl.fine, pl.same, pl.symmetric
+			w.index()
 			// (1) the repaired design satisfies the properties (xattr store only: the
 			// sidecar store has no descriptor-based reads to repair it with)
 			if k.Meta == "xattr" && !k.TwoProc {
-				res, err := tlc.Run(c.Scratch, tlc.Opts{Module: "PosixKey", CfgText: pkCfgText(pl.name, k, pl.initPresent, codeRepaired, false, true, false), Workers: 4})
+				res, err := tlc.Run(c.Scratch, tlc.Opts{Module: "PosixKey", CfgText: pkCfgTextF(pl.name, k, pl.initPresent, codeRepaired, false, true, false, pl.fine), Workers: 4})
 				if err != nil || !res.OK {
 					c.Inconclusive("PosixKey repaired design %s/%v does not satisfy the properties (spec bug): %v %v", pl.name, k, err, res.MustOK())
 					w.Close()
@@ -588,7 +694,7 @@ func C05(c *core.Ctx, replay string) {
 			if replayLine != nil {
 				behs = []pkBehaviour{{Sched: replayLine.Sched}}
 			} else {
-				o := tlc.Opts{Module: "PosixKey", CfgText: pkCfgText(pl.name, k, pl.initPresent, codeAsIs, true, false, false), Workers: 1}
+				o := tlc.Opts{Module: "PosixKey", CfgText: pkCfgTextF(pl.name, k, pl.initPresent, codeAsIs, true, false, false, pl.fine), Workers: 1}
 				if !pl.exhaustive {
 					o.Simulate = fmt.Sprintf("num=%d", pl.sample)
 					o.Depth = 40
@@ -630,6 +736,7 @@ func C05(c *core.Ctx, replay string) {
 					w.Close()
 					return
 				}
+				line.Predicted = b.Class
 				lines = append(lines, line)
 				meta = append(meta, line)
 				nt := ""
@@ -647,13 +754,16 @@ func C05(c *core.Ctx, replay string) {
 					c.Sample(line)
 				}
 			}
-			c.Logf("%v %s init=%v: %d behaviours replayed, %d differ from the model's prediction", k, pl.name, pl.initPresent, len(behs), ndrift)
+			c.Logf("%v %s init=%v fine=%v same-size=%v: %d behaviours replayed, %d differ from the model's prediction", k, pl.name, pl.initPresent, pl.fine, pl.same, len(behs), ndrift)
 		}
 		// (4) free-running rounds (no gates): the gateway runs at full speed
 		if replayLine == nil {
 			rounds := c.Pick(60, 1500)
 			if ci > 0 && !c.Thorough() {
 				rounds = 20
+			}
+			if ci > 1 && !c.Thorough() {
+				rounds = 0
 			}
 			ls := w.stress(rounds)
 			for _, l := range ls {
@@ -687,6 +797,11 @@ func C05(c *core.Ctx, replay string) {
 		for _, i := range bad {
 			fps, detail := c05Fingerprints(v.Classes[i], v.Culprits[i], meta[start+i])
 			for _, fp := range fps {
+				// the known findings are the anomalies the model of the code as it is predicts;
+				// an anomaly in a schedule for which that model predicts none has another cause
+				if meta[start+i].Predicted == "ok" {
+					fp += "/not-predicted-by-model"
+				}
 				c.Violation(fp, detail, meta[start+i])
 			}
 		}
